@@ -112,3 +112,69 @@ def designs_unstratified(rng, big=False):
     call = (lambda g, alt, reps, xv=xv, g0=g0: guarded(lambda: ksample.k_sample(np.array(xv), np.array(g0), reps=reps, seed=g, plus1=False)[0]))
     out.append((f"k_sample[anova] x={xv} group={g0}", call, vals, anova(xs, g0), tuple((n - i, "fy") for i in range(n))))
     return out
+
+
+def designs_stratified(rng, big=False):
+    from permute import stratified, ksample, irr
+    out = []
+    def design():
+        for _ in range(100):
+            sizes = rng.choice([[2, 2], [3, 2], [2, 1, 2], [3, 1], [2, 2, 2]] + ([[3, 3], [4, 2]] if big else []))
+            group, cond = [], []
+            for gi, s in enumerate(sizes):
+                cs = [rng.randint(0, 1) for _ in range(s)]
+                if s >= 2 and len(set(cs)) < 2:
+                    cs[0], cs[1] = 0, 1
+                group += [gi + 1] * s; cond += cs
+            idx = list(range(len(group))); rng.shuffle(idx)
+            group = [group[i] for i in idx]; cond = [cond[i] for i in idx]
+            if len(set(cond)) == 2:
+                return group, cond
+    # stratified_two_sample: mean and callable
+    group, cond = design()
+    n = len(group)
+    resp = [float(rng.randint(0, 4)) for _ in range(n)]
+    order = [int(i) for i in np.array(cond).argsort()]
+    g_s = [group[i] for i in order]; c_s = [cond[i] for i in order]; r_s = [F(resp[i]) for i in order]
+    nt = sum(1 for c in c_s if c == c_s[0])
+    w = [rng.randint(-2, 3) for _ in range(n)]
+    for stat in ("mean", "callable"):
+        if stat == "mean":
+            fex = lambda u: sum(u[:nt]) / nt - sum(u[nt:]) / (len(u) - nt); fpy = "mean"
+        else:
+            fex = (lambda u, w=w: sum(a * b for a, b in zip(w, u))); fpy = (lambda u, w=w: float(np.dot(w, u)))
+        vals = [fex([r_s[i] for i in m]) for m in within_maps(g_s)]
+        call = (lambda g, alt, reps, fpy=fpy, group=group, cond=cond, resp=resp: guarded(lambda: stratified.stratified_two_sample(np.array(group), np.array(cond), np.array(resp), stat=fpy, alternative=alt, reps=reps, seed=g, plus1=False)[0]))
+        out.append((f"stratified_two_sample[{stat}] group={group} cond={cond} resp={resp}", call, vals, fex(r_s), None))
+    # stratified_permutationtest (callable statistic on the permuted condition labels)
+    group, cond = design(); n = len(group)
+    resp = [float(rng.randint(0, 4)) for _ in range(n)]
+    vals = [sum(F(a) * cond[i] for a, i in zip(resp, m)) for m in within_maps(group)]
+    call = (lambda g, alt, reps, group=group, cond=cond, resp=resp: guarded(lambda: stratified.stratified_permutationtest(np.array(group), np.array(cond), np.array(resp), alternative=alt, reps=reps, testStatistic=(lambda u: float(np.dot(resp, u))), seed=g, plus1=False)[0]))
+    out.append((f"stratified_permutationtest[callable] group={group} cond={cond} resp={resp}", call, vals, sum(F(a) * b for a, b in zip(resp, cond)), None))
+    # sim_corr: a single stratum of distinct values so that the statistic is monotone in the cross-product
+    for _ in range(50):
+        n = 4
+        xx = rng.sample(range(1, 15), n); yy = rng.sample(range(1, 15), n)
+        vals = [Fr(sum(xx[p[i]] * yy[i] for i in range(n))) for p in itertools.permutations(range(n))]
+        obs = Fr(sum(a * b for a, b in zip(xx, yy)))
+        if sum(1 for v in vals if v == obs) == 1:
+            break
+    grp = [3] * n
+    call = (lambda g, alt, reps, xx=xx, yy=yy, grp=grp: guarded(lambda: stratified.sim_corr(np.array(xx), np.array(yy), np.array(grp), reps=reps, alternative=alt, seed=g, plus1=False)[0]))
+    out.append((f"sim_corr x={xx} y={yy} group={grp}", call, vals, obs, None))
+    # bivariate_k_sample (callable)
+    group, cond = design(); n = len(group)
+    xv = [float(rng.randint(0, 4)) for _ in range(n)]
+    vals = [sum(F(a) * cond[i] for a, i in zip(xv, m)) for m in within_maps(group)]
+    call = (lambda g, alt, reps, group=group, cond=cond, xv=xv: guarded(lambda: ksample.bivariate_k_sample(np.array(xv), np.array(group), np.array(cond), reps=reps, stat=(lambda x, g1, g2, xb: float(np.dot(x, g2))), seed=g, plus1=False)[0]))
+    out.append((f"bivariate_k_sample[callable] x={xv} group1={group} group2={cond}", call, vals, sum(F(a) * b for a, b in zip(xv, cond)), None, "upper"))
+    # simulate_ts_dist: every rater's row permuted independently
+    R, Ns = rng.choice([(2, 3), (3, 2), (2, 2)] + ([(3, 3)] if big else []))
+    rat_ = [[rng.randint(0, 1) for _ in range(Ns)] for _ in range(R)]
+    def cts(m):
+        return Fr(sum(1 for i in range(Ns) for a in range(R) for b in range(a + 1, R) if m[a][i] == m[b][i]), Ns * R * (R - 1) // 2)
+    vals = [cts([[rat_[a][i] for i in ps[a]] for a in range(R)]) for ps in itertools.product(itertools.permutations(range(Ns)), repeat=R)]
+    call = (lambda g, alt, reps, rat_=rat_: guarded(lambda: irr.simulate_ts_dist(np.array(rat_), num_perm=reps, seed=g, plus1=False)["pvalue"]))
+    out.append((f"simulate_ts_dist ratings={rat_}", call, vals, cts(rat_), None, "upper"))
+    return out
